@@ -178,11 +178,19 @@ def threshold_pairs(chk):
     drv = common.Driver()
     n = chk.n(600, 20000)
     per = {l: {'fails': [], 'badp': [], 'chains': [], 'n': 0} for l in cl.LINKS}
+    pairs = []
     for _ in range(n):
         m, t1 = cl.gen_matrix(rng, maxn=chk.n(8, 12), exact=rng.random() < 0.6)
         vals = sorted(set(v for r in m for v in r))
         t2 = rng.choice(vals + [t1, t1 + 1.0, 2 * max(vals) if vals else 1.0])
-        t1, t2 = min(t1, t2), max(t1, t2)
+        pairs.append((m, min(t1, t2), max(t1, t2)))
+    # linkage values that differ only in the last bits: which pair is "the closest" must not depend on the threshold in use
+    for _ in range(chk.n(150, 4000)):
+        m, sweep = cl.gen_near_tie(rng)
+        for _k in range(4):
+            t1, t2 = sorted(rng.sample(sweep, 2))
+            pairs.append((m, t1, t2))
+    for m, t1, t2 in pairs:
         for link in cl.LINKS:
             s1, f1 = cl.real_trace(link, m, t1)
             s2, f2 = cl.real_trace(link, m, t2)
